@@ -551,6 +551,9 @@ class StubGP:
             # non-nested jump (F5): occasionally inflate again
             if keyed_rng(self.key, 8, self.ids[i], t).random() < 0.1:
                 s2 = s2 * 4.0
+        # keep the adversarial covariance inside the stated family (condition number <= 1e6): with
+        # decoupled sampling one objective can be sampled dozens of times more often than another
+        s2 = np.maximum(s2, float(np.max(s2)) * 1e-6)
         for (ii, d) in self.degenerate:
             if ii == i:
                 s2 = s2.copy()
